@@ -3,7 +3,7 @@
     Directives used: those of ExtrOcamlBasic only. Z / positive / nat stay Coq inductives. *)
 From Coq Require Extraction ExtrOcamlBasic.
 From Coq Require Import ZArith List.
-From CanVerif Require Import Netlink.Layout Netlink.LayoutSpec Netlink.Attr.
+From CanVerif Require Import Netlink.Layout Netlink.LayoutSpec Netlink.Attr Netlink.Program.
 Extraction Language OCaml.
 Extraction "model.ml"
   marshal_ifinfomsg unmarshal_ifinfomsg marshal_bittiming unmarshal_bittiming
@@ -15,4 +15,5 @@ Extraction "model.ml"
   spec_berr_counters spec_stats c_sizeof
   encode_info encode_linkinfo encode_linkinfo_msg decode_linkinfo_from decode_linkinfo
   linkinfo_zero info_zero device_zero device_unmarshal set_bt set_cm kind_can kind_vcan bytes_eqb
+  info_walk linkinfo_walk device_walk info_encode_prog linkinfo_encode_prog
   Z.add Z.mul Z.sub Z.ltb Z.leb Z.eqb Z.of_nat Z.to_nat Z.pow Z.modulo Z.div.
